@@ -25,7 +25,9 @@ def value_for(rng, T, f, undecodable_ok=True):
         # (non-ASCII near-misses only for pure enumerations: a numeric converter in front would make the model silent)
         return rng.choice(["", "Bogus", "on", "On ", rng.choice(mem)[1] + "x"] + (["Ｏn"] if conv["k"] == "enum" else []))
     if k["k"] == "str":
-        return rng.choice(["", "Living Room", "a:b=c", "ÄÖÜ ß", "𝄞 tune", "@x", "x" * rng.randint(1, 40), "12", " lead", "= =", "two\nlines", "trail "])
+        return rng.choice(["", "Living Room", "a:b=c", "ÄÖÜ ß", "𝄞 tune", "@x", "x" * rng.randint(1, 40), "12", " lead", "= =", "two\nlines", "trail ",
+                           # texts that mean something in the protocol when they stand elsewhere: as a reported value they are just text
+                           "?", "Up", "Down", "@UNDEFINED", "@RESTRICTED", "=?", "None", "null", "0", "-", "Mute", "Auto"])
     if k["k"] in ("int", "intOrNone"):
         if r < 0.85 or not undecodable_ok:
             return str(rng.randint(-300, 300))
@@ -234,6 +236,9 @@ def run(ctx: core.Ctx):
     ctx.cov["synthetic_subclass_reads"] = nsyn
     from .. import b2check
     b2check.run_b2(ctx, wire_jobs, ["C03w"], label="end-to-end reads on a real connection", accept=False)
+    # two objects of the same class on two connections (class-level / module-level state shows here)
+    from .. import twin as _twin
+    _twin.run(ctx, core.tables(), ctx.rng, "read")
     return ctx.finish()
 
 
